@@ -62,6 +62,29 @@ def _pair(job):
     return out
 
 
+PROBE_N = (257, 258, 259, 300, 301)
+PROBE_S = (1, 4, 43, 44, 255, 256, 257, 260, 299, 300)
+
+
+def probe_pairs():
+    """Ordered probe sequence around byte/small-int boundaries of BOTH n and the unit count
+    (255/256/257) and beyond every n the pinned suite uses; ascending unit count, so that cells
+    planned for few units are cached before the many-unit problems are asked for."""
+    return [[n, s] for s in PROBE_S for n in PROBE_N if s <= n + 1]
+
+
+def seq_probe(payload):
+    """Runs in a pristine interpreter (vlib.pristine): the pairs in order, in one process."""
+    out = []
+    for n, s in payload["pairs"]:
+        o = _pair((n, s))
+        out.append({"n": n, "s": s, "status": o["status"], "want": o.get("want"), "steps_RAM": o.get("steps_RAM"), "steps_DISK": o.get("steps_DISK"),
+                    "viol": [[p, c, d] for p, c, d in o["viol"]]})
+        if payload.get("stop_at_first") and o["viol"]:
+            break
+    return out
+
+
 def _scan(job):
     """Planned cost of every sub-problem (n, s), lo <= n <= hi, straight from the library's planner."""
     NP, SP, lo, hi = job
@@ -92,6 +115,13 @@ def _gen(job):
 
 def check_witness(data, show=False):
     w = data["witness"]
+    if data.get("kind") == "sequence":
+        res = R.pristine_call("vlib.props.c06.seq_probe", {"pairs": w["sequence"]})
+        if show:
+            for o in res:
+                print("  Mixed(%d,%d): steps RAM=%s DISK=%s optimum=%s" % (o["n"], o["s"], o["steps_RAM"], o["steps_DISK"], o["want"]))
+        last = res[-1] if res else {"viol": []}
+        return [(("Mixed", p), w, d + " [after the earlier calls of the sequence, in one process]", "sequence") for p, c, d in last["viol"]]
     out = _pair((w["n"], w["s"]))
     if show:
         print("replaying Mixed(%d,%d): steps RAM=%s DISK=%s optimum=%s" % (w["n"], w["s"], out.get("steps_RAM"), out.get("steps_DISK"), out.get("want")))
@@ -135,7 +165,21 @@ def run(prop, args):
     gen = _gen((tier, args.seed, 250 if tier == "quick" else 2500))
     known = set(jobs)
     jobs = jobs + [j for j in sorted(set(cand[:400]) | set(gen)) if j not in known]
+    probe = R.pristine_start("vlib.props.c06.seq_probe", {"pairs": probe_pairs()})
     res = R.pmap(_pair, jobs)
+    pres = R.pristine_wait(probe)
+    rep.extra["boundary_probe_sequence"] = {"pairs": len(pres), "n": list(PROBE_N), "s": list(PROBE_S)}
+    seqfail = {}
+    for i, o in enumerate(pres):
+        rep.evaluations += 2
+        rep.count("regions", "n>=257")
+        if o["s"] >= 255:
+            rep.count("regions", "units>=255")
+        for pred, cfg, detail in o["viol"]:
+            if pred not in seqfail:
+                seqfail[pred] = (i, detail)
+    for pred, (i, detail) in seqfail.items():
+        rep.add_violation(("Mixed", pred), {"sequence": probe_pairs()[:i + 1]}, detail + " [after the earlier calls of the sequence, in one process]", kind="sequence")
     rep.exhaustive = [{"box": "Mixed n<=%d, every s in min(1,n-1)..n+1, both storages" % NB, "cases": boxn, "exhaustive": True}]
     for out in res:
         rep.evaluations += 2
@@ -157,6 +201,30 @@ def run(prop, args):
     rep.assumptions = ["true optimum established by exhaustive search for n<=%d; beyond that by a DP validated against the search on that range" % NS]
 
     def shrink(b, w):
+        if "sequence" in w:
+            seq = w["sequence"]
+            last = seq[-1]
+            alone = R.pristine_call("vlib.props.c06.seq_probe", {"pairs": [last]})
+            if any(p == b[1] for p, _, _ in alone[-1]["viol"]):
+                return None if False else ({"cls": "Mixed", "n": last[0], "s": last[1], "storage": "RAM", "passes": 1}, [d for p, _, d in alone[-1]["viol"] if p == b[1]][0])
+            pre = seq[:-1]
+            tries = 0
+            while len(pre) > 1 and tries < 12:      # halve the prefix while the last call still fails
+                tries += 1
+                half = len(pre) // 2
+                for cand in (pre[half:], pre[:half]):
+                    r = R.pristine_call("vlib.props.c06.seq_probe", {"pairs": cand + [last]})
+                    if any(p == b[1] for p, _, _ in r[-1]["viol"]):
+                        pre = cand
+                        break
+                else:
+                    break
+            r = R.pristine_call("vlib.props.c06.seq_probe", {"pairs": pre + [last]})
+            d = [d for p, _, d in r[-1]["viol"] if p == b[1]]
+            if not d:
+                return None
+            return {"sequence": pre + [last]}, d[0] + " [after the earlier calls of the sequence, in one process]"
+
         def fails(c):
             return any(p == b[1] for p, _, _ in _pair((c["n"], c["s"]))["viol"])
         small = C.shrink(w, fails)
